@@ -102,8 +102,8 @@ theorem agrees_of_inv (s : St) (h : Inv s) (hi : InstOk s) : Agrees s := by
           | some po => rw [hd] at hs; cases hs
 
 /-- **C13 (one step).**  Every operation — a namespace read, a class-level assignment on the
-declaring class or on a subclass (copy-on-write), `add_parameter` at any level (succeeding or
-raising), instance creation, instance assignment, `obj.param[n]` — keeps every cache empty or up to
+declaring class or on a subclass (copy-on-write; a rejected one removes the copy again),
+`add_parameter` at any level (succeeding or raising), instance creation, instance assignment, `obj.param[n]` — keeps every cache empty or up to
 date. -/
 theorem step_preserves_inv (s : St) (op : Op) (h : Inv s) : Inv (step s op).1 := by
   suffices H : ∀ s' r, step s op = (s', r) → Inv s' from H _ _ rfl
@@ -130,7 +130,8 @@ theorem step_preserves_inv (s : St) (op : Op) (h : Inv s) : Inv (step s op).1 :=
             inv_clear_setDict (s := { s with heap := s.heap ++ [q] }) (inv_of_classes (s := s) rfl h) c n _
           split at hstep <;> (simp only [Prod.mk.injEq] at hstep; rw [← hstep.1])
           · exact inv_of_classes (s := clearDesc (setDict { s with heap := s.heap ++ [q] } c n s.heap.length) c) rfl h1
-          · exact h1
+          · -- rejected: the copy is gone again, the caches of the class and its descendants are empty
+            exact inv_clearDesc h c
   | addParam c n d hi =>
     simp only [step] at hstep
     split at hstep
@@ -248,7 +249,8 @@ theorem step_preserves_instOk (s : St) (op : Op) (h : Inv s) (hi : InstOk s) : I
         · simp only [e, if_false] at hstep
           split at hstep <;> (simp only [Prod.mk.injEq] at hstep; rw [← hstep.1])
           · exact instOk_cow1 s (s.heap ++ [q]) _ c n _ hi
-          · exact instOk_cow0 s (s.heap ++ [q]) c n _ hi
+          · exact instOk_of (s := s) rfl (clearDesc_shape s c).1
+              (fun k m hk => by rw [(clearDesc_shape s c).2]; exact hk) hi
   | addParam c n d hi' =>
     simp only [step] at hstep
     split at hstep
